@@ -258,6 +258,13 @@ class Constraint:
                 features.add(node.data)
             elif node.is_unary_op():
                 stack.append(node.left)
+            elif node.is_aggregate_op():
+                # sum/avg(attribute[, feature]): only the optional second operand is a feature;
+                # len/floor/ceil(feature)
+                if node.data in (ASTOperation.SUM, ASTOperation.AVG):
+                    stack.append(node.right)
+                else:
+                    stack.append(node.left)
             elif node.is_binary_op():
                 stack.append(node.right)
                 stack.append(node.left)
